@@ -121,15 +121,31 @@ inductive ResumeErr where
   | aheadOfSnapshot  -- "saved TXID … is ahead of latest snapshot"   (finding F5)
 deriving DecidableEq, Repr
 
-/-- The code iterates level 9 and keeps the *last* entry as `latestSnapshot`. -/
-def resumeCheck (fs : List FileInfo) (txid : Nat) : Except ResumeErr Unit :=
+/-- What the validation compares the saved TXID with.  Which one the working tree uses is
+    regenerated from replica.go on every run (`Gen.resumeBound`, translator fact `Follow`):
+    `latestSnapshot` = `txid > latestSnapshot.MaxTXID` (the pinned commit; finding F5),
+    `replicaMax` = the newest TXID over all levels (the proposed repair, proposed-fixes/F5.diff). -/
+inductive ResumeBound where
+  | latestSnapshot
+  | replicaMax
+deriving DecidableEq, Repr
+
+/-- Highest TXID named by any listed file. -/
+def maxInfoTx (fs : List FileInfo) : Nat := fs.foldl (fun m f => if f.max > m then f.max else m) 0
+
+/-- The code iterates level 9 and keeps the *last* entry as `latestSnapshot`; without any
+    snapshot nothing is validated. -/
+def resumeCheck (b : ResumeBound) (fs : List FileInfo) (txid : Nat) : Except ResumeErr Unit :=
   if txid = 0 then .error .noSidecar else
   match (listLevel fs snapshotLevel).getLast? with
   | none => .ok ()
   | some s =>
     if s.min > txid then .error .behindSnapshot
-    else if txid > s.max then .error .aheadOfSnapshot
-    else .ok ()
+    else
+      let bound := match b with
+        | .latestSnapshot => s.max
+        | .replicaMax => Nat.max s.max (maxInfoTx (fs.filter (fun f => decide (f.level < snapshotLevel))))
+      if txid > bound then .error .aheadOfSnapshot else .ok ()
 
 /-! ### The follower with content -/
 
